@@ -27,6 +27,9 @@ type C12Case struct {
 	Xff      []string `json:"xff"`
 	Scheme   string   `json:"scheme"`
 	Creds    string   `json:"creds"`
+	Pre      int      `json:"pre"`  // filler hops in front of the judged elements
+	Suf      int      `json:"suf"`  // filler hops behind them
+	Fill     string   `json:"fill"` // address class of the fillers
 	May      bool     `json:"may"`
 	Must     bool     `json:"must"`
 	Auth     bool     `json:"auth"`
@@ -157,12 +160,44 @@ func (c *C12Case) Num() int64 {
 	if c.N != 0 {
 		return c.N
 	}
-	h := Hash([]byte(c.CfgKey() + "|" + c.Proto + "|" + c.Peer + "|" + strings.Join(c.Xff, ",") + "|" + c.Creds))
+	h := Hash([]byte(c.CfgKey() + "|" + c.Proto + "|" + c.Peer + "|" + strings.Join(c.Xff, ",") + "|" + c.Creds +
+		fmt.Sprintf("|%d|%d|%s", c.Pre, c.Suf, c.Fill)))
 	n := int64((h ^ uint64(Seed())*0x9e3779b97f4a7c15) >> 1)
 	if n == 0 {
 		n = 1
 	}
 	return n
+}
+
+// Chain is the whole X-Forwarded-For chain of the case: Pre fillers, the judged elements, Suf fillers.
+func (c *C12Case) Chain() []string {
+	if c.Pre+c.Suf == 0 {
+		return c.Xff
+	}
+	out := make([]string, 0, c.Pre+len(c.Xff)+c.Suf)
+	for i := 0; i < c.Pre; i++ {
+		out = append(out, c.Fill)
+	}
+	out = append(out, c.Xff...)
+	for i := 0; i < c.Suf; i++ {
+		out = append(out, c.Fill)
+	}
+	return out
+}
+
+// ChainText renders the chain compactly for messages.
+func (c *C12Case) ChainText(cc *C12Conc) string {
+	var xs []string
+	if c.Pre > 0 {
+		xs = append(xs, fmt.Sprintf("%d x %s", c.Pre, cc.Addr[c.Fill]))
+	}
+	for _, x := range c.Xff {
+		xs = append(xs, cc.Addr[x])
+	}
+	if c.Suf > 0 {
+		xs = append(xs, fmt.Sprintf("%d x %s", c.Suf, cc.Addr[c.Fill]))
+	}
+	return "[" + strings.Join(xs, ", ") + "]"
 }
 
 // CfgKey identifies the route configuration of a case.
@@ -175,9 +210,10 @@ func C12HostPort(addr string, port int) string {
 	return net.JoinHostPort(addr, fmt.Sprint(port))
 }
 
-// XFF header styles: the chain on one line ("a, b"), without blanks ("a,b"), or as one header
-// line per element (RFC 7230 3.2.2: equivalent to the comma separated list).
-var C12XffStyles = []string{"comma", "nospace", "lines"}
+// XFF header styles: the chain on one line ("a, b"), without blanks ("a,b"), as one header line
+// per element, or as several lines of several elements (RFC 7230 3.2.2: all equivalent to the
+// comma separated list).
+var C12XffStyles = []string{"comma", "nospace", "lines", "mixed"}
 
 func (cc *C12Conc) SetXFF(h http.Header, xff []string, style string, stripZones bool) {
 	if len(xff) == 0 {
@@ -195,6 +231,15 @@ func (cc *C12Conc) SetXFF(h http.Header, xff []string, style string, stripZones 
 	case "lines":
 		for _, x := range xs {
 			h.Add("X-Forwarded-For", x)
+		}
+	case "mixed":
+		for len(xs) > 0 {
+			n := 7
+			if n > len(xs) {
+				n = len(xs)
+			}
+			h.Add("X-Forwarded-For", strings.Join(xs[:n], ", "))
+			xs = xs[n:]
 		}
 	case "nospace":
 		h.Set("X-Forwarded-For", strings.Join(xs, ","))
@@ -311,7 +356,7 @@ func (cc *C12Conc) Referee(c *C12Case) (may, must bool, err error) {
 	}
 	may = true
 	zoned := false
-	for _, name := range append([]string{c.Peer}, c.Xff...) {
+	for _, name := range append([]string{c.Peer}, c.Chain()...) {
 		s, ok := cc.Addr[name]
 		if !ok {
 			return false, false, fmt.Errorf("address %q has no concretisation", name)
@@ -426,6 +471,9 @@ func (c *C12Case) zoned() (peer, xff bool) {
 			xff = true
 		}
 	}
+	if c.Pre+c.Suf > 0 && c12Zoned[c.Fill] {
+		xff = true
+	}
 	return c12Zoned[c.Peer], xff
 }
 
@@ -435,7 +483,7 @@ func (c *C12Case) zoned() (peer, xff bool) {
 // addresses.  probe returns ok=false when it cannot realise the variant (a real peer's zone).
 // If no variant of the request is denied, the rule configuration is the cause.
 func (c *C12Case) Cause(style string, probe func(style string, stripZones bool) (denied, ok bool)) string {
-	if style == "lines" && len(c.Xff) >= 2 {
+	if (style == "lines" || style == "mixed") && len(c.Chain()) >= 2 {
 		if d, ok := probe("comma", false); ok && d {
 			return "xff-multi-line"
 		}
